@@ -1,0 +1,131 @@
+//go:build verif
+
+package client
+
+// Contracts for the govc verification-condition generator (/verif/govc).
+// This file is comment-only and guarded by the build tag `verif`.
+
+// ---- schedule.go (C14) ---------------------------------------------------------
+// Time is mathematical nanoseconds since the Unix epoch (ns(t)); D ranges over UTC day
+// indices (D*DAY is midnight of day D). Parsing of "H:MM" and "YYYY-MM-DD" goes through
+// the uninterpreted functions of the regexp / strconv contracts, keyed to the literals:
+
+//@ literal reHourMin "(\\d{1,2}):(\\d\\d)"
+//@ literal reDate "(\\d{4})-(\\d{2})-(\\d{2})"
+//@ axiom re_groups: nsub(reHourMin) == 2 && nsub(reDate) == 3
+
+//@ spec func hmHour(s string) int = atoi(resub(reHourMin, s, 1))
+//@ spec func hmMinute(s string) int = atoi(resub(reHourMin, s, 2))
+//@ spec func hmValid(s string) bool = rematch(reHourMin, s) && atoiOK(resub(reHourMin, s, 1)) && atoiOK(resub(reHourMin, s, 2)) && 0 <= hmHour(s) && hmHour(s) < 24 && 0 <= hmMinute(s) && hmMinute(s) < 60
+//@ spec func minOfDay(s string) int = 60*hmHour(s) + hmMinute(s)
+//@ spec func dayNs() int = 86400000000000
+//@ spec func minNs() int = 60000000000
+//@ spec func winStart(s *schedule, D int) int = D*dayNs() + minOfDay(s.startTime)*minNs()
+//@ spec func winEnd(s *schedule, D int) int = ite(minOfDay(s.endTime) > minOfDay(s.startTime), D, D+1)*dayNs() + minOfDay(s.endTime)*minNs()
+//@ spec func dayOfNs(n int) int = fdiv(n, dayNs())
+//@ spec func wdOfDay(D int) int = fmod(D+4, 7)
+//@ spec func wdIn(weekdays []time.Weekday, D int) bool = len(weekdays) <= 0 || (exists k int :: 0 <= k && k < len(weekdays) && int(weekdays[k]) == wdOfDay(D))
+//@ spec func dateParses(d string) bool = rematch(reDate, d) && atoiOK(resub(reDate, d, 1)) && atoiOK(resub(reDate, d, 2)) && atoiOK(resub(reDate, d, 3))
+//@ spec func dateIs(d string, D int) bool = atoi(resub(reDate, d, 1)) == calYear(D) && atoi(resub(reDate, d, 2)) == calMonth(D) && atoi(resub(reDate, d, 3)) == calDay(D)
+//@ spec func dateIn(dates []string, D int) bool = len(dates) <= 0 || (exists k int :: 0 <= k && k < len(dates) && dateIs(dates[k], D))
+//@ spec func trIn(tr timeRange, t time.Time) bool = ns(tr.start) <= ns(tr.end) && ns(tr.start) <= ns(t) && ns(t) < ns(tr.end)
+
+//@ func (*timeRange).in
+//@   props C14
+//@   requires tr != nil
+//@   ensures [C14] result <==> trIn(*tr, t)
+
+//@ func (*timeRanges).in
+//@   props C14
+//@   requires trs != nil
+//@   ensures [C14] result <==> (exists j int :: 0 <= j && j < len(*trs) && trIn((*trs)[j], t))
+//@   ensures [C14] set-view: result <==> (exists x timeRange :: memberOf(*trs, x) && trIn(x, t))
+//@   loop 1:
+//@     invariant -1 <= rangeindex && rangeindex < len(*trs) || rangeindex == -1
+//@     invariant forall j int :: 0 <= j && j <= rangeindex ==> !trIn((*trs)[j], t)
+//@     decreases len(*trs) - rangeindex
+
+//@ spec func startDay(tr timeRange) int = dayOfNs(ns(tr.start))
+//@ spec func allUTC(trs []timeRange) bool = forall i int :: 0 <= i && i < len(trs) ==> isUTC(trs[i].start)
+
+// Set view of a list of ranges (order and multiplicity are irrelevant to timeRanges.in):
+//@ opaque func memberOf(trs []timeRange, x timeRange) bool reads trs
+//@ axiom memberOf_elim reads trs: forall trs []timeRange, x timeRange :: memberOf(trs, x) ==> (exists j int :: 0 <= j && j < len(trs) && trs[j] == x)
+//@ axiom memberOf_intro reads trs: forall trs []timeRange, j int :: 0 <= j && j < len(trs) ==> memberOf(trs, trs[j])
+
+// filterWeekdays / filterDates keep exactly the ranges whose start day is allowed (as a set; order and
+// multiplicity are irrelevant to timeRanges.in).
+//@ func (*timeRanges).filterWeekdays
+//@   props C14
+//@   requires trs != nil && allUTC(*trs)
+//@   modifies trs
+//@   ensures [C14] forall j int :: 0 <= j && j < len(*trs) ==> (exists i int :: 0 <= i && i < old(len(*trs)) && (*trs)[j] == old((*trs)[i]) && wdIn(weekdays, startDay((*trs)[j])))
+//@   ensures [C14] forall i int :: 0 <= i && i < old(len(*trs)) && wdIn(weekdays, old(startDay((*trs)[i]))) ==> (exists j int :: 0 <= j && j < len(*trs) && (*trs)[j] == old((*trs)[i]))
+//@   ensures [C14] set-view: forall x timeRange :: memberOf(*trs, x) <==> (old(memberOf(*trs, x)) && wdIn(weekdays, startDay(x)))
+//@   loop 1:
+//@     invariant -1 <= rangeindex && rangeindex < len(*trs) || rangeindex == -1
+//@     invariant len(weekdays) > 0 && sameSlice(*trs, old(*trs)) && sinceLoop(trsNew)
+//@     invariant forall j int :: 0 <= j && j < len(trsNew) ==> (exists i int :: 0 <= i && i <= rangeindex && trsNew[j] == (*trs)[i])
+//@     invariant forall j int :: 0 <= j && j < len(trsNew) ==> wdIn(weekdays, startDay(trsNew[j]))
+//@     invariant forall i int :: 0 <= i && i <= rangeindex && wdIn(weekdays, startDay((*trs)[i])) ==> (exists j int :: 0 <= j && j < len(trsNew) && trsNew[j] == (*trs)[i])
+//@     decreases len(*trs) - rangeindex
+//@   loop 2:
+//@     invariant -1 <= rangeindex && rangeindex < len(weekdays) || rangeindex == -1
+//@     invariant !wdFound && (forall k int :: 0 <= k && k <= rangeindex ==> int(weekdays[k]) != wdOfDay(startDay(tr)))
+//@     decreases len(weekdays) - rangeindex
+
+//@ func (*timeRanges).filterDates
+//@   props C14
+//@   requires trs != nil && allUTC(*trs)
+//@   modifies trs
+//@   ensures [C14] err == nil ==> (forall j int :: 0 <= j && j < len(*trs) ==> (exists i int :: 0 <= i && i < old(len(*trs)) && (*trs)[j] == old((*trs)[i])))
+//@   ensures [C14] err == nil ==> (forall j int :: 0 <= j && j < len(*trs) ==> dateIn(dates, startDay((*trs)[j])))
+//@   ensures [C14] err == nil ==> (forall i int :: 0 <= i && i < old(len(*trs)) && dateIn(dates, old(startDay((*trs)[i]))) ==> (exists j int :: 0 <= j && j < len(*trs) && (*trs)[j] == old((*trs)[i])))
+//@   ensures [C14] set-view: err == nil ==> (forall x timeRange :: memberOf(*trs, x) <==> (old(memberOf(*trs, x)) && dateIn(dates, startDay(x))))
+//@   loop 1:
+//@     invariant -1 <= rangeindex && rangeindex < len(*trs) || rangeindex == -1
+//@     invariant len(dates) > 0 && sameSlice(*trs, old(*trs)) && sinceLoop(trsNew)
+//@     invariant forall j int :: 0 <= j && j < len(trsNew) ==> (exists i int :: 0 <= i && i <= rangeindex && trsNew[j] == (*trs)[i])
+//@     invariant forall j int :: 0 <= j && j < len(trsNew) ==> dateIn(dates, startDay(trsNew[j]))
+//@     invariant forall i int :: 0 <= i && i <= rangeindex && dateIn(dates, startDay((*trs)[i])) ==> (exists j int :: 0 <= j && j < len(trsNew) && trsNew[j] == (*trs)[i])
+//@     decreases len(*trs) - rangeindex
+//@   loop 2:
+//@     invariant -1 <= rangeindex && rangeindex < len(dates) || rangeindex == -1
+//@     invariant len(dates) > 0 && sameSlice(*trs, old(*trs)) && 0 <= rangeindex1 && rangeindex1 < len(*trs) && tr == (*trs)[rangeindex1]
+//@     invariant refOf(trsNew) == refOf(preloop(trsNew)) || sinceLoop(trsNew)
+//@     invariant forall j int :: 0 <= j && j < len(trsNew) ==> (exists i int :: 0 <= i && i <= rangeindex1 && trsNew[j] == (*trs)[i])
+//@     invariant forall j int :: 0 <= j && j < len(trsNew) ==> dateIn(dates, startDay(trsNew[j]))
+//@     invariant forall i int :: 0 <= i && i < rangeindex1 && dateIn(dates, startDay((*trs)[i])) ==> (exists j int :: 0 <= j && j < len(trsNew) && trsNew[j] == (*trs)[i])
+//@     invariant forall k int :: 0 <= k && k <= rangeindex && dateIs(dates[k], startDay(tr)) ==> (exists j int :: 0 <= j && j < len(trsNew) && trsNew[j] == tr)
+//@     modifies trsNew
+//@     decreases len(dates) - rangeindex
+
+//@ spec func dayAllowed(s *schedule, D int) bool = wdIn(s.weekdays, D) && dateIn(s.dates, D)
+//@ spec func inWindow(s *schedule, t time.Time, D int) bool = dayAllowed(s, D) && winStart(s, D) <= ns(t) && ns(t) < winEnd(s, D)
+
+// Only the two days dayOf(t) and dayOf(t)-1 can have a window containing t (pure arithmetic):
+//@ lemma [C14] window_days(sm int, em int, n int, D int): 0 <= sm && sm < 1440 && 0 <= em && em < 1440 && D*dayNs() + sm*minNs() <= n && n < ite(em > sm, D, D+1)*dayNs() + em*minNs() ==> D == dayOfNs(n) || D == dayOfNs(n) - 1
+
+//@ spec func d0(t time.Time) int = dayOfNs(ns(t))
+//@ spec func rangeIs(tr timeRange, startNs int, endNs int) bool = ns(tr.start) == startNs && ns(tr.end) == endNs && isUTC(tr.start) && isUTC(tr.end)
+//@ spec func rangesBuilt(s *schedule, t time.Time, trs []timeRange) bool = (minOfDay(s.endTime) > minOfDay(s.startTime) && len(trs) == 1 && rangeIs(trs[0], winStart(s, d0(t)), winEnd(s, d0(t)))) || (minOfDay(s.endTime) <= minOfDay(s.startTime) && len(trs) == 2 && rangeIs(trs[0], winStart(s, d0(t)), winEnd(s, d0(t))) && rangeIs(trs[1], winStart(s, d0(t)-1), winEnd(s, d0(t)-1)))
+
+//@ spec func winRange(s *schedule, D int, x timeRange) bool = rangeIs(x, winStart(s, D), winEnd(s, D))
+//@ spec func wraps(s *schedule) bool = minOfDay(s.endTime) <= minOfDay(s.startTime)
+//@ spec func builtSet(s *schedule, t time.Time, trs []timeRange) bool = forall x timeRange :: memberOf(trs, x) <==> (winRange(s, d0(t), x) || (wraps(s) && winRange(s, d0(t)-1, x)))
+
+//@ func (*schedule).activeForTime
+//@   props C14
+//@   requires s != nil && hmValid(s.startTime) && hmValid(s.endTime)
+//@   assert [C14] ranges-built: rangesBuilt(s, t, timeRanges) at "timeRanges.filterWeekdays(s.weekdays)"
+//@   assert [C14] ranges-set: builtSet(s, t, timeRanges) && allUTC(timeRanges) at "timeRanges.filterWeekdays(s.weekdays)"
+//@   assert [C14] weekdays-utc: allUTC(timeRanges) at "timeRanges.filterDates(s.dates)"
+//@   assert [C14] weekdays-set: forall x timeRange :: memberOf(timeRanges, x) <==> ((winRange(s, d0(t), x) || (wraps(s) && winRange(s, d0(t)-1, x))) && wdIn(s.weekdays, startDay(x))) at "timeRanges.filterDates(s.dates)"
+//@   assert [C14] dates-set: forall x timeRange :: memberOf(timeRanges, x) <==> ((winRange(s, d0(t), x) || (wraps(s) && winRange(s, d0(t)-1, x))) && wdIn(s.weekdays, startDay(x)) && dateIn(s.dates, startDay(x))) at "timeRanges.in(t)"
+//@   assert [C14] day-of-window-0: forall x timeRange :: winRange(s, d0(t), x) ==> startDay(x) == d0(t) && (trIn(x, t) <==> (winStart(s, d0(t)) <= ns(t) && ns(t) < winEnd(s, d0(t)))) at "timeRanges.in(t)"
+//@   assert [C14] day-of-window-1: forall x timeRange :: winRange(s, d0(t)-1, x) ==> startDay(x) == d0(t)-1 && (trIn(x, t) <==> (winStart(s, d0(t)-1) <= ns(t) && ns(t) < winEnd(s, d0(t)-1))) at "timeRanges.in(t)"
+//@   assert [C14] final-set: forall x timeRange :: memberOf(timeRanges, x) <==> ((winRange(s, d0(t), x) && dayAllowed(s, d0(t))) || (wraps(s) && winRange(s, d0(t)-1, x) && dayAllowed(s, d0(t)-1))) at "timeRanges.in(t)"
+//@   assert [C14] no-wrap-no-yesterday: !wraps(s) ==> !(winStart(s, d0(t)-1) <= ns(t) && ns(t) < winEnd(s, d0(t)-1)) at "timeRanges.in(t)"
+//@   assert [C14] only-two-days: forall D int :: winStart(s, D) <= ns(t) && ns(t) < winEnd(s, D) ==> D == d0(t) || D == d0(t)-1 at "timeRanges.in(t)"
+//@   ensures [C14] candidates: err == nil ==> (res0 <==> (inWindow(s, t, d0(t)) || inWindow(s, t, d0(t) - 1)))
+//@   ensures [C14] window: err == nil ==> (res0 <==> (exists D int :: inWindow(s, t, D)))
